@@ -18,6 +18,7 @@
 //       8 s      cancel() the write handle in slot s
 //       9 a b    move the write handle of slot a into the empty slot b
 //       10..13 s lock_shared / try_lock_shared / try_lock_shared_for / try_lock_shared_until into snapshot slot s
+//                (12, 13 only with mutex kind 1; refused with kind 0)
 //       14 s     read once through the snapshot in slot s (returns the value)
 //       15 s     drop the snapshot in slot s
 //       16 a b   copy the snapshot of slot a into the empty slot b
@@ -90,6 +91,7 @@ struct CowImpl {
     using Cow = gmlc::libguarded::cow_guarded<cowh::CowT, M>;
     using WH = typename Cow::handle;
     using SH = typename Cow::shared_handle;
+    static constexpr bool TIMED = std::is_same_v<M, vstd::timed_mutex>;
     Cow cow;
     // the deleter holds a reference: write handles cannot be move-assigned, so they are emplaced
     std::vector<std::vector<std::optional<WH>>> ws;  // destroyed before cow
@@ -157,11 +159,24 @@ struct CowImpl {
         switch (k) {
             case 10: if (sp) return -1; sp = cow.lock_shared(); return 0;
             case 11: if (sp) return -1; sp = cow.try_lock_shared(); return 0;
-            case 12: if (sp) return -1; sp = cow.try_lock_shared_for(std::chrono::milliseconds(1)); return 0;
+            // the timed shared forms are instantiated for std::timed_mutex only (they are documented to need a timed
+            // mutex); with std::mutex the op is refused, as in the model (CowModel.decode_op)
+            case 12:
+                if constexpr (TIMED) {
+                    if (sp) return -1;
+                    sp = cow.try_lock_shared_for(std::chrono::milliseconds(1));
+                    return 0;
+                } else {
+                    return -1;
+                }
             case 13:
-                if (sp) return -1;
-                sp = cow.try_lock_shared_until(std::chrono::steady_clock::now() + std::chrono::milliseconds(1));
-                return 0;
+                if constexpr (TIMED) {
+                    if (sp) return -1;
+                    sp = cow.try_lock_shared_until(std::chrono::steady_clock::now() + std::chrono::milliseconds(1));
+                    return 0;
+                } else {
+                    return -1;
+                }
             case 14: if (!sp) return -1; sp->touch(); return sp->p.read();
             case 15: if (!sp) return -1; sp.reset(); return 0;
             case 16:
